@@ -1,9 +1,20 @@
 (* C09 -- unknown fields survive parse and re-serialise.
    Statements only; proofs in Proofs/Unknown.v (and C01's round trip, whose canonical messages carry
-   arbitrary unknown fields).  The two-schema consequence (new -> old unpack+pack -> new) is decided on
-   the implementation by the check's oracle and the reference tie. *)
+   arbitrary unknown fields), and for the two-schema consequence Proofs/Older*.v + Proofs/Forward.v:
+   for EVERY generator-producible schema, EVERY older version of it (the same messages with an arbitrary subset
+   of the fields removed, per message type: Impl/Older.v) and EVERY canonical message of the newer schema
+   (any nesting, repeated / packed fields, oneofs, unknown fields of its own): the older program accepts the
+   newer program's bytes, keeps the fields it does not know as unknown fields (the result is `proj m`: the kept
+   fields, sub-messages projected recursively, and the dropped fields' wire records byte for byte, in arrival
+   order, before the message's own unknown fields), re-serialises it to bytes of the same length, and the
+   newer program reads exactly the original message back.  The proof combines the canonical round trip with the
+   order independence of records (C04): the older program writes the dropped fields' records after its known
+   fields, at every nesting level.
+   What is outside the theorem: non-canonical encodings by the newer program (re-encodings in which each
+   singular sub-message occurs once are covered on the implementation by the check's two-schema oracle on
+   protobuf-c and libprotobuf). *)
 From Coq Require Import ZArith List Bool.
-From PBC Require Import Base.CInt Impl.Desc Impl.Mem Impl.Enc Impl.Pack Impl.Unpack Impl.Canon Proofs.Required Proofs.Unknown Proofs.MsgRT4.
+From PBC Require Import Base.CInt Impl.Desc Impl.Mem Impl.Enc Impl.Pack Impl.Unpack Impl.Canon Impl.Older Proofs.Required Proofs.Unknown Proofs.MsgRT4 Proofs.OlderEnv Proofs.OlderProj Proofs.Forward Proofs.Examples.
 Import ListNotations.
 Local Open Scope Z_scope.
 
@@ -35,3 +46,28 @@ Proof.
   exact (proj1 (roundtrip_canonical E EO m C (S (length b)) b Hp Hl (Nat.lt_succ_diag_r _))).
 Qed.
 Print Assumptions C09_roundtrip_with_unknown.
+
+(* ---- forward compatibility across two versions of a schema *)
+Theorem C09_older_schema_is_a_schema : forall (keep : nat -> field -> bool) (E : env),
+  env_ok E = true -> env_ok (older keep E) = true.
+Proof. exact older_env_ok. Qed.
+Print Assumptions C09_older_schema_is_a_schema.
+
+Theorem C09_newer_data_survives_an_older_program : forall (E : env) (keep : nat -> field -> bool) (m : msg) (b : list Z),
+  env_ok E = true -> canon_msg E m = true -> pack_msg E m = Ok b -> Z.of_nat (length b) <= 2147483647 ->
+  exists mo b',
+    unpack_top (older keep E) (m_desc m) b = Ok mo /\          (* the older program accepts the newer data *)
+    pack_msg (older keep E) mo = Ok b' /\                      (* re-serialises it *)
+    length b' = length b /\
+    unpack_top E (m_desc m) b' = Ok m.                         (* and the newer program reads the original back *)
+Proof. exact forward_compatible. Qed.
+Print Assumptions C09_newer_data_survives_an_older_program.
+
+(* what the older program holds in between: the projection, canonical for the older schema *)
+Theorem C09_what_the_older_program_sees : forall (E : env) (keep : nat -> field -> bool) (m : msg) (b : list Z),
+  env_ok E = true -> canon_msg E m = true -> pack_msg E m = Ok b -> Z.of_nat (length b) <= 2147483647 ->
+  env_ok (older keep E) = true /\ unpack_top (older keep E) (m_desc m) b = Ok (proj E keep m) /\
+  canon_msg (older keep E) (proj E keep m) = true /\
+  exists b', pack_msg (older keep E) (proj E keep m) = Ok b' /\ length b' = length b /\ unpack_top E (m_desc m) b' = Ok m.
+Proof. exact forward_compatible_proj. Qed.
+Print Assumptions C09_what_the_older_program_sees.
